@@ -489,8 +489,10 @@ def judge_call(c, files, rec, st):
         lines = (rec.get("out") or "").split("\n")
         if lines and lines[-1] == "":
             lines = lines[:-1]
-        if lines != exp_out:
-            return cm.viol("C11/punctuation_delete/stdout-lines", expected=exp_out, got=lines[:6])
+        # the list of removed tokens on stdout is documented by the transformation, but no
+        # clause of C11 speaks of it (and its layout is nobody's contract): counted only
+        if lines == exp_out:
+            st.probe("punctuation_delete_stdout_lists_removed_tokens")
     return None
 
 
